@@ -210,10 +210,12 @@ PARTIAL = {
     'C09': ['fork mode and user-supplied serializer functions: implementation under the monitors only; "the snapshot a node holds '
             'agrees with what any voter committed at that position" (L1_snapshot_agrees_core2) is proved for the ' + FRAGMENT],
     'C10': ['joint safety under membership change (C10_safety_under_change_full) is not proved on the model of the code: gate, one '
-            'pending change, member set = fold of the log, single-change majorities intersect are theorems; with a re-used address it '
-            'is FALSE (known finding KF-C10-1: witness readded_address_partial_replay, refutation in coq/AbstractM/Examples.v); without '
-            're-use a proof is under way on an abstract Raft with membership (coq/AbstractM, no refinement from the model of the code '
-            'yet); dynamic membership together with journal files and member restarts is outside the generators'],
+            'pending change, member set = fold of the log, single-change majorities intersect are theorems about it; it is FALSE '
+            'for a joiner whose start list is inconsistent with the log it replays (known findings KF-C10-1: re-used address, '
+            'KF-C10-2: list read during a pending change; witnesses in harness/raft_scenarios.py, refutations in Props/C10m.v); '
+            'under the discipline D1-D4 of DESIGN 16.5 it is proved for the abstract Raft with membership coq/AbstractM '
+            '(Props/C10m.v), which is not tied to the model of the code by a refinement yet; dynamic membership together with '
+            'journal files and member restarts is outside the generators'],
     'C12': [],
     'C18': ['non-interference of read-only nodes is refuted in one respect (a voter whose only connection is an observer starts '
             'elections: C18_noninterference_refuted) and proved for the leader phase; what the property states (no vote, no leadership, '
